@@ -210,8 +210,36 @@ func genC12Input(t *simrt.Tape, tier string) c12Input {
 	}
 }
 
+// stackMutations applies 1-3 further character-level mutations to an input
+// (thorough tier): the token-level knowledge is lost, the general oracles remain.
+func stackMutations(t *simrt.Tape, in c12Input) c12Input {
+	runes := []rune(in.Src)
+	pool := []rune("[](),:\n \"'0x1.+-eEnaT#\\")
+	n := 1 + t.Choose(3)
+	for k := 0; k < n; k++ {
+		switch t.Choose(3) {
+		case 0:
+			if len(runes) > 0 {
+				i := t.Choose(len(runes))
+				runes = append(runes[:i:i], runes[i+1:]...)
+			}
+		case 1:
+			i := t.Choose(len(runes) + 1)
+			runes = append(runes[:i:i], append([]rune{pool[t.Choose(len(pool))]}, runes[i:]...)...)
+		default:
+			if len(runes) > 0 {
+				runes[t.Choose(len(runes))] = pool[t.Choose(len(pool))]
+			}
+		}
+	}
+	return c12Input{Class: in.Class + "+stacked-mutations", Src: string(runes), Note: in.Note}
+}
+
 func (propC12) Run(ctx *Ctx, index int) {
 	in := genC12Input(ctx.Prog, ctx.Tier)
+	if ctx.Tier == "thorough" && ctx.Prog.Choose(3) == 2 {
+		in = stackMutations(ctx.Prog, in)
+	}
 	ctx.Res.Desc = c12Desc{Class: in.Class, Source: in.Src, Note: in.Note}
 	ctx.Res.ProgKey = hashString(in.Src)
 	ctx.Res.NonTrivial = true
